@@ -2,5 +2,5 @@ SPECIFICATION Spec
 CONSTANTS
   MaxOps = 2
   Tables = {1, 2, 3}
-  WorldSel = {0}
+  WorldSel = {1, 2, 3}
 INVARIANTS EmitWorld Emit
